@@ -75,6 +75,15 @@ type Op struct {
 	Verbose   bool `json:"verbose,omitempty"`
 	NoJSON    bool `json:"no_json,omitempty"`
 
+	// Fault ops (kind "fault"): Inner is the command that dies; FaultKind is "kill" (SIGKILL
+	// at a system-call boundary), "tear" (the log is left with a prefix of the bytes the
+	// command would have appended - what a kill inside write(2) or a full disk leaves) or
+	// "tmp" (a partially written temp file of a rewrite is left behind); Frac in [0,1)
+	// selects the boundary / the cut offset.
+	Inner     *Op     `json:"inner,omitempty"`
+	FaultKind string  `json:"fault_kind,omitempty"`
+	Frac      float64 `json:"frac,omitempty"`
+
 	// HoldLock makes the harness hold .ergo/lock (flock LOCK_EX) while the command runs.
 	HoldLock bool `json:"hold_lock,omitempty"`
 }
@@ -98,6 +107,7 @@ type World struct {
 	// Twin, when set, is a copy of the store that was compacted at the fork point; every
 	// later op is applied to both and the outcomes must agree (C05).
 	Twin         *World
+	TwinProp     string          // property the twin relation belongs to ("C05" or "C03")
 	TouchedSince map[string]bool // main-store ids touched or created since the fork
 }
 
@@ -311,6 +321,8 @@ func (w *World) Build(op Op) Cmd {
 		sub = append(sub, "init")
 	case "fork_compact":
 		sub = append(sub, "compact") // executed on the twin only
+	case "fault":
+		return w.Build(*op.Inner)
 	default:
 		panic("unknown op kind " + op.Kind)
 	}
@@ -331,3 +343,11 @@ func (o Op) IsMutation() bool {
 }
 
 func trimmedTitle(s string) string { return strings.TrimSpace(s) }
+
+// At returns a view of this world's bookkeeping over a copy of the store at root.
+func (w *World) At(root string) *World {
+	c := *w
+	c.Root = root
+	c.Twin = nil
+	return &c
+}
